@@ -1,15 +1,35 @@
 #!/usr/bin/env python3
-"""Run catalogued self-test mutants: tools/run_mutants.py [id ...]   (all if none given)"""
-import sys, os
+"""Run catalogued self-test mutants: tools/run_mutants.py [-j N] [id ...]   (all if none given).
+Results are merged into selftest/last_results.json (informational; regenerates selftest/CATALOGUE.md via tools/mkcatalogue.py)."""
+import sys, os, json
+from concurrent.futures import ThreadPoolExecutor
 sys.path.insert(0, os.path.dirname(os.path.dirname(os.path.abspath(__file__)))); sys.dont_write_bytecode = True
 from rules import selftest
-ids = set(sys.argv[1:])
-bad = 0
+args = sys.argv[1:]
+jobs = 4
+if args[:1] == ["-j"]:
+    jobs = int(args[1]); args = args[2:]
+ids = set(args)
+work = []
 for m in selftest.load_catalog():
     if ids and m["id"] not in ids: continue
     for p in m["props"]:
         if not os.path.exists(os.path.join(selftest.F.VERIF, "rules", "props", p.lower() + ".py")): continue
-        r = selftest.run_mutant(m, p, selftest.F.repo_dir())
-        print(m["id"], p, r["status"], r.get("fired", r.get("why")))
+        work.append((m, p))
+def one(mp):
+    m, p = mp
+    r = selftest.run_mutant(m, p, selftest.F.repo_dir())
+    return m, p, r
+bad = 0
+res_path = os.path.join(selftest.F.VERIF, "selftest", "last_results.json")
+try:
+    results = json.load(open(res_path))
+except Exception:
+    results = {}
+with ThreadPoolExecutor(max_workers=jobs) as ex:
+    for m, p, r in ex.map(one, work):
+        print(m["id"], p, r["status"], r.get("fired", r.get("why")), flush=True)
+        results["%s/%s" % (m["id"], p)] = {"status": r["status"], "fired": r.get("fired", [])[:6]}
         if r["status"] not in ("detected", "silent-ok"): bad += 1
+json.dump(results, open(res_path, "w"), indent=1, sort_keys=True)
 sys.exit(1 if bad else 0)
